@@ -573,7 +573,9 @@ where
                 self.dt = (self.end - self.time) / self.order;
             }
             self.runge_kutta(O)?;
-            if shortened {
+            // (steps that were not shortened because their product with the step
+            // count stays just below the end can still add up to just above it)
+            if shortened || self.time.real() > self.end.real() {
                 // The steps were sized to end on the end time: do not let the
                 // round-off of adding them up move the last one off of it
                 self.time = self.end;
